@@ -239,6 +239,10 @@ def run_check(pid, tier, seed, replay=None):
         ok_t, tmsg = translate()
         if not ok_t:
             broken.append({"kind": "translator", "detail": tmsg[-800:]})
+        for line in tmsg.splitlines():
+            m = re.match(r"TRANSLATOR-REFUSED\[(Gen/\w+\.v)\]: (.*)", line)
+            if m:       # an abstraction generator refused: concerns the properties that depend on that file
+                broken.append({"kind": "translator", "file": m.group(1), "detail": m.group(2)[:800]})
         forb = scan_forbidden()
         if forb:
             broken.append({"kind": "forbidden-construct", "detail": forb[:5]})
@@ -254,7 +258,7 @@ def run_check(pid, tier, seed, replay=None):
         relevant_broken = []
         dep_files = set(getattr(mod, "DEPENDS", []))
         for b in broken:
-            if b["kind"] != "proof-obligation" or not dep_files or b["file"].replace("theories/", "") in dep_files:
+            if "file" not in b or not dep_files or b["file"].replace("theories/", "") in dep_files:
                 relevant_broken.append(b)
         if missing and not relevant_broken:
             relevant_broken = broken or [{"kind": "missing-artefact", "detail": missing}]
@@ -271,7 +275,17 @@ def run_check(pid, tier, seed, replay=None):
                         relevant_broken.append({"kind": "axioms", "theorem": t, "detail": extra})
         model_ok = vo_exists("Inst.vo") and not any(f == "theories/Inst.v" or "/Gen/" in f for f, _ in failed) and ok_t
         spec_ok = all(vo_exists(v) for v in getattr(mod, "SPEC_VO", ["DocSem.vo"]))
-        result = mod.run(tier=tier, seed=seed, model_ok=model_ok, spec_ok=spec_ok, replay=replay)
+        try:
+            result = mod.run(tier=tier, seed=seed, model_ok=model_ok, spec_ok=spec_ok, replay=replay)
+        except Exception:
+            import traceback
+            tb = traceback.format_exc()
+            log(tb[-3000:])
+            rp = write_replay(pid, {"property": pid, "kind": "check-crashed", "traceback": tb[-6000:],
+                                    "note": "the check's own machinery raised while exercising the implementation: the property is "
+                                            "not shown to hold; the traceback names the call that raised"})
+            log(f"VIOLATION property={pid} replay={rp} no-failing-input-found")
+            return 1
     # result: dict(evaluations, nontrivial, samples, k_mismatch: [case json], o_violations: [case json], rule, extra)
     known = [k for k in load_known() if k.get("property") == pid and k.get("status") == "known"]
     violations, known_hits = [], []
